@@ -1153,6 +1153,402 @@ fn gen_c05(o: &mut Out, r: &mut Rng, d: &GDict, tier: &str) {
     }
 }
 
+/* ---------- stream and server families ---------- */
+
+fn small_messages(r: &mut Rng, d: &GDict) -> Vec<GM> {
+    let mut v = vec![];
+    let m = header(r);
+    v.push(m); // header only: 20 octets
+    let mut m = header(r);
+    m.avps.push(GA { code: d.by_type(T_U32)[0].code, vendor: None, flags: 0x40, v: GV::U32(7) });
+    v.push(m); // 32
+    let mut m = header(r);
+    m.avps.push(GA { code: d.by_type(T_UTF8)[0].code, vendor: None, flags: 0, v: GV::Utf8("ab€".into()) }); // 5 octets, padding 3
+    m.avps.push(GA { code: d.by_type(T_OCT)[1].code, vendor: Some(99), flags: 0x40, v: GV::Oct(vec![1, 2]) });
+    v.push(m);
+    let mut m = header(r);
+    let inner = GA { code: d.by_type(T_IDENT)[0].code, vendor: None, flags: 0, v: GV::Ident("h.example".into()) };
+    m.avps.push(nest(d, r, 2, Some(inner)));
+    v.push(m);
+    v
+}
+
+fn chunks_to_events(stream: &[u8], cuts: &[usize]) -> String {
+    let mut ev = vec![];
+    let mut prev = 0;
+    for &c in cuts.iter().chain(std::iter::once(&stream.len())) {
+        if c > prev {
+            ev.push(format!("d:{}", hex(&stream[prev..c])));
+            prev = c;
+        }
+    }
+    if ev.is_empty() {
+        "-".into()
+    } else {
+        ev.join(",")
+    }
+}
+
+fn random_events(r: &mut Rng, stream: &[u8]) -> String {
+    let mut ev = vec![];
+    let mut pos = 0;
+    while pos < stream.len() {
+        if r.chance(1, 4) {
+            ev.push("p".to_string());
+        }
+        let n = match r.below(4) {
+            0 => 1,
+            1 => 1 + r.below(4) as usize,
+            2 => 1 + r.below(24) as usize,
+            _ => 1 + r.below(stream.len() as u64) as usize,
+        }
+        .min(stream.len() - pos);
+        ev.push(format!("d:{}", hex(&stream[pos..pos + n])));
+        pos += n;
+    }
+    if r.chance(1, 3) {
+        ev.push("p".into());
+    }
+    ev.join(",")
+}
+
+fn random_wscript(r: &mut Rng, total: usize) -> String {
+    let mut ev = vec![];
+    let mut left = total;
+    while left > 0 && ev.len() < 400 {
+        match r.below(5) {
+            0 => ev.push("p".to_string()),
+            _ => {
+                let k = match r.below(3) {
+                    0 => 1,
+                    1 => 1 + r.below(7) as usize,
+                    _ => 1 + r.below(left as u64 + 8) as usize,
+                };
+                ev.push(format!("a{}", k));
+                left = left.saturating_sub(k);
+            }
+        }
+    }
+    if ev.is_empty() {
+        "-".into()
+    } else {
+        ev.join(",")
+    }
+}
+
+fn gen_c06(o: &mut Out, r: &mut Rng, d: &GDict, tier: &str) {
+    let thorough = tier == "thorough";
+    let small = small_messages(r, d);
+    // streams of 1..4 frames
+    let mut streams: Vec<Vec<GM>> = vec![];
+    for m in &small {
+        streams.push(vec![m.clone()]);
+    }
+    streams.push(vec![small[0].clone(), small[1].clone()]);
+    streams.push(vec![small[1].clone(), small[0].clone(), small[2].clone()]);
+    streams.push(vec![small[0].clone(), small[0].clone(), small[1].clone(), small[0].clone()]);
+    for _ in 0..(if thorough { 40 } else { 8 }) {
+        let n = 1 + r.below(4) as usize;
+        streams.push((0..n).map(|_| message(r, d, 3, 2)).collect());
+    }
+    for ms in &streams {
+        let frames: Vec<Vec<u8>> = ms.iter().map(|m| m.encode(&mut Some(r))).collect();
+        let stream: Vec<u8> = frames.concat();
+        let n = frames.len();
+        let lens: Vec<String> = frames.iter().map(|f| f.len().to_string()).collect();
+        o.case(&format!("stream frames={}", lens.join(",")));
+        // baseline: everything in one delivery; one call more than there are frames (it meets the end of the stream)
+        o.line(&format!("sdec {} d:{}", n + 1, hex(&stream)));
+        // one-octet dribble, with and without a pause before every octet
+        let cuts: Vec<usize> = (1..stream.len()).collect();
+        o.line(&format!("sdec {} {}", n + 1, chunks_to_events(&stream, &cuts)));
+        let dribble_p: Vec<String> = stream.iter().map(|b| format!("p,d:{:02x}", b)).collect();
+        o.line(&format!("sdec {} {}", n + 1, dribble_p.join(",")));
+        // every pair of cut positions for short streams (exhaustive), random pairs otherwise
+        if stream.len() <= (if thorough { 160 } else { 100 }) {
+            for i in 0..=stream.len() {
+                for j in i..=stream.len() {
+                    o.line(&format!("sdec {} {}", n + 1, chunks_to_events(&stream, &[i, j])));
+                }
+            }
+        } else {
+            for _ in 0..400 {
+                let i = r.below(stream.len() as u64 + 1) as usize;
+                let j = i + r.below((stream.len() - i) as u64 + 1) as usize;
+                o.line(&format!("sdec {} {}", n + 1, chunks_to_events(&stream, &[i, j])));
+            }
+        }
+        // Pending placements: base script = one chunk per cut at the frame-internal boundaries 4 and 20; every
+        // placement of up to two pauses between the events (exhaustive), then random scripts
+        let mut cuts = vec![];
+        let mut off = 0;
+        for f in &frames {
+            cuts.extend([off + 1, off + 4, off + 20.min(f.len())]);
+            off += f.len();
+            cuts.push(off);
+        }
+        cuts.sort();
+        cuts.dedup();
+        let mut base: Vec<String> = vec![];
+        let mut prev = 0;
+        for c in cuts {
+            if c > prev && c <= stream.len() {
+                base.push(format!("d:{}", hex(&stream[prev..c])));
+                prev = c;
+            }
+        }
+        let slots = base.len() + 1;
+        if slots <= 18 {
+            for a in 0..slots {
+                for b in a..slots {
+                    let mut ev = vec![];
+                    for (i, e) in base.iter().enumerate() {
+                        if i == a {
+                            ev.push("p".to_string());
+                        }
+                        if i == b {
+                            ev.push("p".to_string());
+                        }
+                        ev.push(e.clone());
+                    }
+                    if a == slots - 1 {
+                        ev.push("p".into());
+                    }
+                    if b == slots - 1 {
+                        ev.push("p".into());
+                    }
+                    o.line(&format!("sdec {} {}", n + 1, ev.join(",")));
+                }
+            }
+        }
+        for _ in 0..(if thorough { 300 } else { 60 }) {
+            o.line(&format!("sdec {} {}", n + 1, random_events(r, &stream)));
+        }
+        // fewer calls than frames: what is not asked for stays on the stream (consumed counts say so)
+        if n > 1 {
+            o.line(&format!("sdec {} d:{}", n - 1, hex(&stream)));
+        }
+    }
+    // write side: partial-write patterns
+    let mut msgs = small.clone();
+    for _ in 0..(if thorough { 60 } else { 12 }) {
+        msgs.push(message(r, d, 4, 3));
+    }
+    for m in &msgs {
+        let total = m.encode(&mut None).len();
+        o.case(&format!("write len={}", total));
+        let mut ls = vec![];
+        m.ops(r, &mut ls);
+        o.lines(&ls);
+        o.line("senc -");
+        o.line(&format!("senc {}", vec!["a1"; total].join(",")));
+        o.line(&format!("senc {}", vec!["p,a1"; total].join(",")));
+        for k in [2usize, 3, 4, 5, 7, 19, 20, 21] {
+            o.line(&format!("senc {}", vec![format!("a{}", k); total / k + 1].join(",")));
+        }
+        for _ in 0..(if thorough { 200 } else { 40 }) {
+            o.line(&format!("senc {}", random_wscript(r, total)));
+        }
+    }
+}
+
+fn gen_c07(o: &mut Out, r: &mut Rng, d: &GDict, tier: &str) {
+    let thorough = tier == "thorough";
+    let mut lens: Vec<usize> = (0..=64).collect();
+    for dlt in 0..=16 {
+        lens.push((1 << 20) - dlt);
+        lens.push((1 << 20) + dlt);
+        lens.push((1 << 24) - 1 - dlt);
+    }
+    for k in 0..24 {
+        lens.push(1 << k);
+        lens.push((1 << k) + 1);
+    }
+    for _ in 0..(if thorough { 400 } else { 60 }) {
+        lens.push(r.below(1 << 24) as usize);
+    }
+    let _ = d;
+    for l in lens {
+        for b0 in [1u8, 0, 0xff] {
+            let mut pre = vec![b0];
+            pre.extend(&(l as u32).to_be_bytes()[1..]);
+            // a header that would be acceptable if the length were honest
+            let mut hdr = pre.clone();
+            hdr.extend([0x80, 0, 1, 16, 0, 0, 0, 4, 0, 0, 0, 1, 0, 0, 0, 2]);
+            o.case(&format!("announce L={} b0={}", l, b0));
+            // nothing after the prefix
+            o.line(&format!("sdec 1 d:{}", hex(&pre)));
+            o.line(&format!("sdec 1 d:{},e", hex(&pre)));
+            // prefix split across deliveries
+            o.line(&format!("sdec 1 d:{},p,d:{},d:{}", hex(&pre[..1]), hex(&pre[1..3]), hex(&pre[3..])));
+            // fewer than announced
+            o.line(&format!("sdec 1 d:{}", hex(&hdr)));
+            if l > 24 && l <= 4096 {
+                let mut f = hdr.clone();
+                f.resize(l - 3, 0);
+                o.line(&format!("sdec 1 d:{}", hex(&f)));
+            }
+            // exactly as announced, and more than announced (only where the amounts are moderate, plus the 1 MiB boundary)
+            if l >= 20 && (l <= 4096 || (b0 == 1 && (l == (1 << 20) || l == (1 << 20) - 1 || l == (1 << 20) - 4))) {
+                let mut f = hdr.clone();
+                f.resize(l, 0);
+                o.line(&format!("sdec 1 d:{}", hex(&f)));
+                f.extend(r.bytes(37));
+                o.line(&format!("sdec 1 d:{}", hex(&f)));
+            }
+            // a lot more than announced behind a short / oversized announcement
+            let mut f = hdr.clone();
+            f.extend(r.bytes(200));
+            o.line(&format!("sdec 1 d:{}", hex(&f)));
+            o.line(&format!("sdec 2 d:{}", hex(&f)));
+        }
+    }
+}
+
+/// C08 (cuts = false) and C09 (cuts = true): the per-connection loop of the server on scripted streams
+fn gen_c08(o: &mut Out, r: &mut Rng, d: &GDict, tier: &str, cuts: bool) {
+    let thorough = tier == "thorough";
+    let n_corpus = if cuts { if thorough { 60 } else { 10 } } else if thorough { 300 } else { 50 };
+    for ci in 0..n_corpus {
+        let nreq = 1 + r.below(if cuts { 4 } else { 8 }) as usize;
+        let reqs: Vec<GM> = (0..nreq).map(|_| if ci % 3 == 0 { small_messages(r, d)[r.below(4) as usize].clone() } else { message(r, d, 3, 2) }).collect();
+        let answers: Vec<GM> = (0..nreq).map(|_| message(r, d, 4, 2)).collect();
+        let rf: Vec<Vec<u8>> = reqs.iter().map(|m| m.encode(&mut Some(r))).collect();
+        let af: Vec<Vec<u8>> = answers.iter().map(|m| m.encode(&mut None)).collect();
+        let stream: Vec<u8> = rf.concat();
+        let total_ans: usize = af.iter().map(|f| f.len()).sum();
+        let setup = |o: &mut Out, r: &mut Rng| {
+            // the answers the scripted handler will return, set aside as saved messages 0..n-1
+            o.line("mclear");
+            for a in &answers {
+                let mut ls = vec![];
+                a.ops(r, &mut ls);
+                o.lines(&ls);
+                o.line("msave");
+            }
+        };
+        let all_ok: Vec<String> = (0..nreq).map(|i| format!("a{}", i)).collect();
+        let rl: Vec<String> = rf.iter().map(|f| f.len().to_string()).collect();
+        let al: Vec<String> = af.iter().map(|f| f.len().to_string()).collect();
+        if !cuts {
+            // all good: whole delivery (baseline), dribble, random segmentation x random partial writes
+            let variants = if thorough { 30 } else { 10 };
+            for v in 0..variants {
+                o.case(&format!("serve good reqlens={} anslens={}", rl.join(","), al.join(",")));
+                setup(o, r);
+                let rd = match v {
+                    0 => format!("d:{}", hex(&stream)),
+                    1 => chunks_to_events(&stream, &(1..stream.len()).collect::<Vec<_>>()),
+                    2 => format!("d:{},e", hex(&stream)),
+                    _ => random_events(r, &stream),
+                };
+                let wr = match v {
+                    0 | 2 => "-".to_string(),
+                    1 => vec!["a1"; total_ans].join(","),
+                    _ => random_wscript(r, total_ans),
+                };
+                o.line(&format!("serve {} {} {}", all_ok.join(","), rd, wr));
+            }
+            // one failing handler call at every position
+            for k in 0..nreq {
+                o.case(&format!("serve herr={} reqlens={} anslens={}", k, rl.join(","), al.join(",")));
+                setup(o, r);
+                let mut hs = all_ok.clone();
+                hs[k] = "err".into();
+                o.line(&format!("serve {} {} {}", hs.join(","), random_events(r, &stream), random_wscript(r, total_ans)));
+            }
+            // one malformed frame at every position (several kinds of malformation)
+            for k in 0..nreq {
+                for kind in 0..4 {
+                    let mut bad = rf.clone();
+                    match kind {
+                        0 => {
+                            // unknown command code
+                            bad[k][5] = 0x7f;
+                        }
+                        1 => {
+                            // announced length below the header size
+                            bad[k][1] = 0;
+                            bad[k][2] = 0;
+                            bad[k][3] = 8;
+                        }
+                        2 => {
+                            // oversized announcement
+                            bad[k][1] = 0x20;
+                        }
+                        _ => {
+                            // an AVP the dictionary does not know (or a header-only frame made inconsistent)
+                            let mut f = bad[k].clone();
+                            let l = f.len() + 8;
+                            f.extend([0, 0, 0x30, 0x39, 0, 0, 0, 8]);
+                            f[1] = (l >> 16) as u8;
+                            f[2] = (l >> 8) as u8;
+                            f[3] = l as u8;
+                            bad[k] = f;
+                        }
+                    }
+                    let s2: Vec<u8> = bad.concat();
+                    o.case(&format!("serve bad={} kind={} reqlens={} anslens={}", k, kind, rl.join(","), al.join(",")));
+                    setup(o, r);
+                    o.line(&format!("serve {} {} {}", all_ok.join(","), if kind % 2 == 0 { format!("d:{}", hex(&s2)) } else { random_events(r, &s2) }, "-"));
+                }
+            }
+        } else {
+            // C09: every read-side cut offset p, with whole-buffer and one-octet delivery; end by close and by reset
+            for p in 0..=stream.len() {
+                for mode in 0..3 {
+                    o.case(&format!("serve readcut={} reqlens={} anslens={}", p, rl.join(","), al.join(",")));
+                    setup(o, r);
+                    let head = &stream[..p];
+                    let rd = match mode {
+                        0 => format!("{},e", if p == 0 { "p".to_string() } else { format!("d:{}", hex(head)) }),
+                        1 => {
+                            let mut ev: Vec<String> = head.iter().map(|b| format!("d:{:02x}", b)).collect();
+                            ev.push("e".into());
+                            ev.join(",")
+                        }
+                        _ => format!("{},f", if p == 0 { "p".to_string() } else { format!("d:{}", hex(head)) }),
+                    };
+                    o.line(&format!("serve {} {} {}", all_ok.join(","), rd, "-"));
+                }
+            }
+            // every write-side failure offset q
+            for q in 0..=total_ans {
+                for mode in 0..2 {
+                    o.case(&format!("serve writecut={} reqlens={} anslens={}", q, rl.join(","), al.join(",")));
+                    setup(o, r);
+                    // the offset q falls into answer j at offset off
+                    let mut wr: Vec<String> = vec![];
+                    let mut left = q;
+                    for f in &af {
+                        if left >= f.len() {
+                            if mode == 0 {
+                                wr.push(format!("a{}", f.len()));
+                            } else {
+                                wr.extend(vec!["a1".to_string(); f.len()]);
+                            }
+                            left -= f.len();
+                        } else {
+                            if left > 0 {
+                                if mode == 0 {
+                                    wr.push(format!("a{}", left));
+                                } else {
+                                    wr.extend(vec!["a1".to_string(); left]);
+                                }
+                            }
+                            left = usize::MAX;
+                            break;
+                        }
+                    }
+                    let _ = left;
+                    wr.push(if q % 2 == 0 { "f".into() } else { "a0".into() });
+                    o.line(&format!("serve {} d:{} {}", all_ok.join(","), hex(&stream), wr.join(",")));
+                }
+            }
+        }
+    }
+}
+
 /* ---------- dictionary families ---------- */
 
 const TYPE_SPELLINGS: [&str; 24] = [
@@ -1629,6 +2025,22 @@ pub fn generate(family: &str, seed: u64, tier: &str, extra: &[String], w: &mut d
             gen_c03(&mut o, &mut r, &d0, tier);
         }
         "c17" => gen_c17(&mut o, &mut r, tier),
+        "c06" => {
+            emit_dict(o.w, &d0);
+            gen_c06(&mut o, &mut r, &d0, tier);
+        }
+        "c07" => {
+            emit_dict(o.w, &d0);
+            gen_c07(&mut o, &mut r, &d0, tier);
+        }
+        "c08" => {
+            emit_dict(o.w, &d0);
+            gen_c08(&mut o, &mut r, &d0, tier, false);
+        }
+        "c09" => {
+            emit_dict(o.w, &d0);
+            gen_c08(&mut o, &mut r, &d0, tier, true);
+        }
         "c14" => gen_c14(&mut o, &mut r, tier),
         "c15" => gen_c15(&mut o, &mut r, tier, extra),
         "c16" => gen_c16(&mut o, &mut r, tier, extra),
